@@ -113,6 +113,8 @@ def check(case: Dict[str, Any]) -> Outcome:
         from ..fuzz.job import check_fuzz_case
 
         return check_fuzz_case(case)
+    if case.get("loop"):
+        return check_loopback(case)
     out = Outcome()
     steps: List[Dict[str, Any]] = list(case["steps"])
     probe = {"msg": {"kind": "request", "id": "probe-id"}, "beh": {"status": 200, "ctype": "json", "body": {"kind": "result"}}}
@@ -423,20 +425,114 @@ def job_hyp(col: Collector, seed: int, tier: str, shard: int, n: int) -> None:
     hyp_run(col, seed * 1000 + shard, cases(), check, n)
 
 
+def check_loopback(case: Dict[str, Any]) -> Outcome:
+    """One request per case against a real loopback HTTP server; the body is sent with chunked transfer
+    encoding in the generated TCP segments (incl. cuts inside UTF-8 characters and CRLF)."""
+    from chuk_mcp.protocol.messages.json_rpc_message import parse_message
+    from chuk_mcp.transports.http.http_client import http_client
+    from chuk_mcp.transports.http.parameters import StreamableHTTPParameters
+
+    from ..loopback import RawHTTPServer, Reply
+
+    out = Outcome()
+    beh = case["beh"]
+    msg = case["msg"]
+    wire = _out_msg(msg)
+    is_sse = beh.get("ctype", "json").startswith("sse")
+    body, put_in, _unterminated = build_body(beh.get("body", {"kind": "result"}), wire, is_sse)
+    cuts = sorted(set(c % max(1, len(body)) for c in case.get("cuts", []) if len(body) > 1))
+    pos = [0] + [c for c in cuts if c] + [len(body)]
+    segs = [body[a:b] for a, b in zip(pos, pos[1:]) if b > a]
+    got: List[Any] = []
+
+    async def main():
+        async def handler(method, path, headers, reqbody):
+            try:
+                w = json.loads(reqbody)
+            except Exception:
+                w = {}
+            if isinstance(w, dict) and w.get("id") == "probe-id":
+                return Reply(200, {"content-type": "application/json"}, json.dumps({"jsonrpc": "2.0", "id": "probe-id", "result": {}}).encode())
+            hdrs = {}
+            if CTYPES[beh.get("ctype", "json")]:
+                hdrs["content-type"] = CTYPES[beh.get("ctype", "json")]
+            return Reply(beh["status"], hdrs, segments=segs if segs else None, body=b"")
+
+        async with RawHTTPServer(handler) as server:
+            async with http_client(StreamableHTTPParameters(url=server.url + "/mcp", timeout=5.0)) as (r, w):
+                await w.send(parse_message(wire))
+                await w.send(parse_message({"jsonrpc": "2.0", "id": "probe-id", "method": "ping"}))
+                with anyio.move_on_after(5):
+                    async for m in r:
+                        v = m.model_dump(exclude_none=True) if hasattr(m, "model_dump") else m
+                        if isinstance(v, dict) and v.get("id") == "probe-id":
+                            break
+                        got.append(v)
+
+    try:
+        asyncio.run(main())
+    except Exception as e:  # noqa
+        out.fail("loopback:http-client-raised", f"{type(e).__name__}: {e}")
+        return out
+    out.nontrivial = bool(cuts) or is_sse
+    out.classes = ("loopback", "ctype:" + beh.get("ctype", "json"), "chunked" if cuts else "unchunked")
+    try:
+        text = body.decode("utf-8")
+    except UnicodeDecodeError:
+        text = None
+    expected: Optional[List[Any]]
+    if beh["status"] >= 400 or text is None:
+        expected = None
+    elif is_sse:
+        expected = jsonrpc_messages(text, classify) or None
+    else:
+        try:
+            v = json.loads(text)
+        except Exception:
+            v = None
+        expected = [v] if isinstance(v, dict) and classify(v)[0] else (list(v) if isinstance(v, list) and v and all(isinstance(x, dict) and classify(x)[0] for x in v) else None)
+    if expected is not None:
+        if len(got) != len(expected) or not all(strict_eq(a, b) for a, b in zip(got, expected)):
+            out.fail("loopback:delivered-messages-differ-from-body", f"cuts={cuts} got {json.dumps(got)[:300]} want {json.dumps(expected)[:300]}")
+    elif msg["kind"] == "request":
+        if not (len(got) == 1 and classify(got[0])[0] in ("result", "error") and strict_eq(got[0].get("id"), msg["id"])):
+            out.fail("loopback:no-single-terminal-message", f"got {json.dumps(got)[:300]} body={body[:100]!r}")
+    return out
+
+
+@st.composite
+def loopback_cases(draw):
+    mk = draw(st.sampled_from(["request-str", "request-int", "notification"]))
+    msg: Dict[str, Any] = {"kind": "notification"} if mk == "notification" else {"kind": "request", "id": "r-1" if mk == "request-str" else 7}
+    beh = draw(behaviour())
+    beh.pop("exc", None)
+    beh.setdefault("ctype", "json")
+    beh.setdefault("body", {"kind": "result"})
+    if beh["status"] in (301, 302, 307):
+        beh["status"] = 200
+    if beh.get("body", {}).get("kind") == "empty":
+        beh["body"] = {"kind": "result"}
+    return {"loop": True, "msg": msg, "beh": beh, "cuts": draw(st.lists(st.integers(1, 400), max_size=6))}
+
+
+def job_loopback(col: Collector, seed: int, tier: str, shard: int, n: int) -> None:
+    hyp_run(col, seed * 1000 + 800 + shard, loopback_cases(), check, n)
+
+
 def job_atheris(col: Collector, seed: int, tier: str, seconds: int, corpus: str) -> None:
     from ..fuzz.job import run_fuzz_job
 
     run_fuzz_job(col, "sse_text", seconds, seed, corpus)
 
 
-JOBS = {"atheris": job_atheris, "matrix": job_matrix, "hyp": job_hyp}
+JOBS = {"atheris": job_atheris, "matrix": job_matrix, "hyp": job_hyp, "loopback": job_loopback}
 
 
 def jobs(tier: str):
     if tier == "quick":
         return [("matrix", {"shard": s, "nshards": 10}) for s in range(10)] + [("hyp", {"shard": s, "n": 130}) for s in range(6)]
     return (
-        [("matrix", {"shard": s, "nshards": 8}) for s in range(8)] + [("hyp", {"shard": s, "n": 2500}) for s in range(8)]
+        [("matrix", {"shard": s, "nshards": 8}) for s in range(8)] + [("hyp", {"shard": s, "n": 2500}) for s in range(4)] + [("loopback", {"shard": s, "n": 60}) for s in range(4)]
         + [("atheris", {"seconds": 150, "corpus": "seeded"}), ("atheris", {"seconds": 150, "corpus": "empty"})]
     )
 
